@@ -12,6 +12,7 @@ import (
 
 	"golang.org/x/tools/go/packages"
 	"golang.org/x/tools/go/ssa"
+	"golang.org/x/tools/go/ssa/ssautil"
 )
 
 // E7 — shared state and determinism (DESIGN.md §2 E7).
@@ -683,6 +684,7 @@ func classifyMapRange(p *packages.Package, fd *ast.FuncDecl, rs *ast.RangeStmt) 
 		// every appended slice must be sorted after the loop, before the function ends
 		for _, o := range appended {
 			sorted := false
+			lossy := ""
 			ast.Inspect(fd.Body, func(n ast.Node) bool {
 				call, ok := n.(*ast.CallExpr)
 				if !ok || call.Pos() < rs.End() || len(call.Args) == 0 {
@@ -694,9 +696,22 @@ func classifyMapRange(p *packages.Package, fd *ast.FuncDecl, rs *ast.RangeStmt) 
 				}
 				if id, ok := core.Unparen(call.Args[0]).(*ast.Ident); ok && core.ObjOf(info, id) == o {
 					sorted = true
+					// a custom comparator must compare the elements themselves, their fields or the result of
+					// one getter called on them: a further projection of such a key (f.Style().CSS()) can map
+					// distinct elements to equal keys, and sort.Slice keeps ties in (map) insertion order
+					if len(call.Args) == 2 {
+						if fl, ok := core.Unparen(call.Args[1]).(*ast.FuncLit); ok {
+							if why := lossyComparator(info, fl, o); why != "" {
+								lossy = why
+							}
+						}
+					}
 				}
 				return true
 			})
+			if lossy != "" {
+				return false, "values are collected and sorted, but " + lossy
+			}
 			if !sorted {
 				return false, "values are appended to `" + o.Name() + "` in iteration order and the slice is not sorted afterwards"
 			}
@@ -763,4 +778,133 @@ func totalOrderArgBest(info *types.Info, is *ast.IfStmt, keyObj types.Object) bo
 		}
 	}
 	return gotKey && gotVal
+}
+
+// lossyComparator inspects `func(i, j int) bool` passed to sort.Slice for slice variable o: every
+// comparison operand that mentions o[i] / o[j] must be the element, a field of it, or one
+// zero-argument method call on it. It returns a description of the first deeper projection.
+func lossyComparator(info *types.Info, fl *ast.FuncLit, o types.Object) string {
+	bad := ""
+	var depth func(e ast.Expr) (int, bool) // projection depth above o[k], and whether o[k] is mentioned
+	depth = func(e ast.Expr) (int, bool) {
+		e = core.Unparen(e)
+		switch x := e.(type) {
+		case *ast.IndexExpr:
+			if id, ok := core.Unparen(x.X).(*ast.Ident); ok && core.ObjOf(info, id) == o {
+				return 0, true
+			}
+		case *ast.SelectorExpr:
+			if d, ok := depth(x.X); ok {
+				if sel := info.Selections[x]; sel != nil && sel.Kind() == types.FieldVal {
+					return d, true // fields do not lose information about identity by themselves
+				}
+				return d, true // method value: counted at the call
+			}
+		case *ast.CallExpr:
+			if se, ok := x.Fun.(*ast.SelectorExpr); ok {
+				if d, ok := depth(se.X); ok {
+					return d + 1, true
+				}
+			}
+			if tv, ok := info.Types[x.Fun]; ok && tv.IsType() && len(x.Args) == 1 {
+				return depth(x.Args[0])
+			}
+		case *ast.StarExpr:
+			return depth(x.X)
+		}
+		return 0, false
+	}
+	ast.Inspect(fl.Body, func(n ast.Node) bool {
+		be, ok := n.(*ast.BinaryExpr)
+		if !ok {
+			return true
+		}
+		switch be.Op {
+		case token.LSS, token.GTR, token.LEQ, token.GEQ, token.EQL, token.NEQ:
+			for _, side := range []ast.Expr{be.X, be.Y} {
+				if d, ok := depth(side); ok && d > 1 && bad == "" {
+					bad = "the comparator orders the elements by `" + types.ExprString(side) + "`, a projection of a projection: distinct elements can compare equal, and ties keep the map's iteration order"
+				}
+			}
+		}
+		return true
+	})
+	return bad
+}
+
+// e7ClockReviewed: the places where output deliberately carries a timestamp.
+var e7ClockReviewed = map[string]string{
+	"(*canvas/renderers/pdf.pdfWriter).Close|time.Now": "CreationDate of the PDF document information: a timestamp by design",
+	"canvas/renderers/ps.New|time.Now":                 "%%CreationDate header of the PostScript file: a timestamp by design",
+	"(*github.com/tdewolff/font.SFNT).Write|time.Now":  "head.modified of a font program written by the dependency (embedded fonts differ in these 8 bytes between seconds); not changeable from canvas",
+}
+
+// E7Clock: results do not depend on the wall clock or on random numbers, except at the reviewed timestamp sites.
+func E7Clock(c *core.Ctx, r *core.Report) {
+	r.Rule("E7.clock", "\"repeated calls with the same inputs give the same outputs\": no function of the module's packages or of the font dependency calls time.Now/Since/Until, math/rand, crypto/rand or os.Getpid, except at the reviewed sites that write a creation/modification timestamp into the output (one line of reason each, listed in the evidence)")
+	prog := c.SSA()
+	var fns []*ssa.Function
+	fns = append(fns, moduleFunctions(c)...)
+	for fn := range ssautil.AllFunctions(prog) {
+		if fn.Pkg != nil && fn.Pkg.Pkg.Path() == "github.com/tdewolff/font" {
+			fns = append(fns, fn)
+		}
+	}
+	seen := map[*ssa.Function]bool{}
+	used := map[string]bool{}
+	n := 0
+	for _, fn := range fns {
+		if fn == nil || seen[fn] || fn.Blocks == nil {
+			continue
+		}
+		seen[fn] = true
+		if strings.HasSuffix(prog.Fset.Position(fn.Pos()).Filename, "_test.go") {
+			continue
+		}
+		for _, b := range fn.Blocks {
+			for _, ins := range b.Instrs {
+				ci, ok := ins.(ssa.CallInstruction)
+				if !ok {
+					continue
+				}
+				cal := ci.Common().StaticCallee()
+				if cal == nil || cal.Pkg == nil {
+					continue
+				}
+				pk, name := cal.Pkg.Pkg.Path(), cal.Name()
+				src := ""
+				switch {
+				case pk == "time" && (name == "Now" || name == "Since" || name == "Until"):
+					src = "time." + name
+				case pk == "math/rand" || pk == "math/rand/v2" || pk == "crypto/rand":
+					src = pk + "." + name
+				case pk == "os" && (name == "Getpid" || name == "Hostname"):
+					src = "os." + name
+				}
+				if src == "" {
+					continue
+				}
+				n++
+				owner := fn
+				for owner.Parent() != nil {
+					owner = owner.Parent()
+				}
+				key := core.ShortFunc(owner) + "|" + src
+				if why, ok := e7ClockReviewed[key]; ok {
+					used[key] = true
+					r.OK("E7.clock", key, c.Pos(ins.Pos()), "reviewed: "+why)
+					r.Assumed["reviewed timestamp site "+key+": "+why] = true
+				} else {
+					r.Fail("E7.clock", key, c.Pos(ins.Pos()), fmt.Sprintf("%s calls %s: its result depends on when (or in which process) it runs, not only on its inputs", core.ShortFunc(owner), src))
+				}
+			}
+		}
+	}
+	for k := range e7ClockReviewed {
+		if !used[k] {
+			r.Fail("E7.clock", "table|"+k, "", "stale table entry: the reviewed timestamp site no longer exists")
+		}
+	}
+	r.Count("E7.clock-sites", n)
+	r.Floor("E7.clock-sites", 3)
 }
